@@ -157,6 +157,55 @@ UNIVERSE_304 = ['Accept-Ranges', 'Allow', 'Cache-Control', 'Content-Encoding', '
                 'Date', 'ETag', 'Expires', 'Last-Modified', 'Vary']
 
 
+class _Hang(BaseException):
+    """raised by the interval timer inside code under test that does not return"""
+
+
+def _on_alarm(signum, frame):
+    _HANGS['fired'] = True
+    raise _Hang()
+
+
+REQUEST_TIMEOUT_S = 15
+_HANGS = {'n': 0, 'fired': False}
+
+
+def guarded(fn, *args, timeout=REQUEST_TIMEOUT_S):
+    """Run code under test: whatever it does (raise anything, not return) becomes an observation
+    ('EXC', name) instead of a harness error.  A call normally takes milliseconds; after the first call that
+    does not return the budget per call shrinks, after the fifth the remaining calls are not made at all (they
+    are reported as 'not-run(after hangs)'), so that hanging code under test costs about a minute, not hours."""
+    import signal
+    import threading
+    if _HANGS['n'] >= 5:
+        return ('EXC', 'not-run(after hangs)')
+    if _HANGS['n']:
+        timeout = min(timeout, 3)
+    timed = threading.current_thread() is threading.main_thread()
+    if timed:
+        old = signal.signal(signal.SIGALRM, _on_alarm)
+        signal.setitimer(signal.ITIMER_REAL, timeout)
+    _HANGS['fired'] = False
+    try:
+        try:
+            r = fn(*args)
+        except _Hang:
+            r = None
+        except Exception as e:
+            r = ('EXC', type(e).__name__)
+        if _HANGS['fired']:
+            # the timer went off (the code under test may have turned the interruption into something else,
+            # e.g. a 500 page): the call did not return by itself
+            _HANGS['n'] += 1
+            _HANGS['fired'] = False
+            return ('EXC', 'hang(>%ds)' % timeout)
+        return r
+    finally:
+        if timed:
+            signal.setitimer(signal.ITIMER_REAL, 0)
+            signal.signal(signal.SIGALRM, old)
+
+
 def _fresh(method='GET'):
     import cherrypy
     from cherrypy import _cprequest
@@ -175,32 +224,44 @@ def tables(ctx):
     sp = [ord(c) for c in PYWS]
     low = [(c, ord(chr(c).lower())) for c in range(0x110000)
            if chr(c).lower() in ('b', 'y', 't', 'e', 's')]
-    try:
+    def probe_304():
         req, resp = _fresh()
         for h in UNIVERSE_304:
             resp.headers[h] = 'x'
         cherrypy.HTTPRedirect([], 304).set_response()
-        stripped = sorted(h for h in UNIVERSE_304 if h not in resp.headers)
-        kept = sorted(h for h in UNIVERSE_304 if h in resp.headers)
+        return (sorted(h for h in UNIVERSE_304 if h not in resp.headers),
+                sorted(h for h in UNIVERSE_304 if h in resp.headers))
+
+    def probe_keep(st):
+        req, resp = _fresh()
+        resp.headers['Content-Range'] = 'bytes */1'
+        _cperror.clean_headers(st)
+        return 'Content-Range' in resp.headers
+
+    def probe_method(m):
+        req, resp = _fresh(m)
+        resp.headers['ETag'] = '"x"'
+        req.headers['If-None-Match'] = '"x"'
+        try:
+            cptools.validate_etags()
+            return 'pass'
+        except cherrypy.HTTPRedirect as e:
+            return e.status
+        except cherrypy.HTTPError as e:
+            return e.status
+
+    # the probes execute code under test while the global Lean lock is held: a change that makes them raise or
+    # hang must neither end in a harness error nor keep the lock; it shows up as a table the theorems reject
+    try:
+        r = guarded(probe_304, timeout=20)
+        stripped, kept = ([], []) if isinstance(r, tuple) and r and r[0] == 'EXC' else r
         keeps = []
         for st in (400, 404, 412, 416, 500):
-            req, resp = _fresh()
-            resp.headers['Content-Range'] = 'bytes */1'
-            _cperror.clean_headers(st)
-            keeps.append((st, 'Content-Range' in resp.headers))
+            r = guarded(probe_keep, st, timeout=20)
+            keeps.append((st, bool(r) and not isinstance(r, tuple)))
         nm = []
         for m in ['GET', 'HEAD', 'POST', 'PUT', 'DELETE', 'OPTIONS', 'PATCH']:
-            req, resp = _fresh(m)
-            resp.headers['ETag'] = '"x"'
-            req.headers['If-None-Match'] = '"x"'
-            try:
-                cptools.validate_etags()
-                r = 'pass'
-            except cherrypy.HTTPRedirect as e:
-                r = e.status
-            except cherrypy.HTTPError as e:
-                r = e.status
-            if r == 304:
+            if guarded(probe_method, m, timeout=20) == 304:
                 nm.append(m)
     finally:
         cherrypy.serving.clear()
@@ -349,18 +410,18 @@ def canon_ranges(r):
 
 def real_get_ranges(h, n):
     from cherrypy.lib import httputil
-    try:
+    # the statement: an invalid header is ignored, never an exception (nor a hang)
+    def call():
         r = httputil.get_ranges(h, n)
-    except Exception as e:   # the statement: an invalid header is ignored, never an exception
-        return ('EXC', type(e).__name__)
-    if r is None:
-        return None
-    return [(int(a), int(b)) for a, b in r]
+        return None if r is None else [(int(a), int(b)) for a, b in r]
+    return guarded(call, timeout=20)
 
 
 def unit_verdict(h, n, got):
     """None when the statement holds for this get_ranges result, else (what, signature)."""
     allowed, cls = allowed_ranges(h, n)
+    if isinstance(got, tuple) and got[1].startswith('not-run'):
+        return None
     if isinstance(got, tuple):
         return ('get_ranges(%r, %d) raised %s (a Range header is honoured, answered 416 or ignored, never an '
                 'exception)' % (h, n, got[1]), 'get_ranges:exception:' + got[1])
@@ -493,7 +554,7 @@ def check_unit(ctx, cases, compare=True):
                     case = {'op': 'R', 'header': h2, 'length': n2, '_shrunk_from': {'header': h, 'length': n}}
                     what = unit_verdict(h2, n2, real_get_ranges(h2, n2))[0]
             ctx.oracle_fail(case, what, sig)
-        if model is not None:
+        if model is not None and not (isinstance(got, tuple) and got[1].startswith('not-run')):
             ctx.compared()
             if canon_ranges(got) != model[idx]:
                 ctx.disagree(case, canon_ranges(got), model[idx], 'get_ranges result')
@@ -525,7 +586,10 @@ def oracle_elements(v):
 
 def real_elements(name, v):
     from cherrypy.lib import httputil
-    return [str(x) for x in httputil.header_elements(name, v)]
+    r = guarded(lambda: [str(x) for x in httputil.header_elements(name, v)], timeout=20)
+    if isinstance(r, tuple):
+        return ['<%s:%s>' % r]        # an observation no model list equals
+    return r
 
 
 def check_elements(ctx, values, compare=True):
@@ -537,6 +601,10 @@ def check_elements(ctx, values, compare=True):
         want = oracle_elements(v)
         case = {'op': 'E', 'value': v}
         ctx.case(case, nontrivial=bool(v), key='E|%s' % v)
+        if got and got[0].startswith('<EXC:'):
+            if 'not-run' not in got[0]:
+                ctx.oracle_fail(case, 'header_elements(%r) ended in %s' % (v, got[0]), 'elements:exception')
+            continue
         ctx.count('E:n:%d' % min(len(got), 4))
         if want is not None and sorted(got) != sorted(want):
             ctx.oracle_fail(case, 'If-Match %r parsed into %r, its entity-tags are %r' % (v, got, want),
@@ -798,17 +866,6 @@ def shaped_body(content, shape):
     return content
 
 
-class _Hang(BaseException):
-    """raised by the interval timer inside a request that does not return"""
-
-
-def _on_alarm(signum, frame):
-    raise _Hang()
-
-
-REQUEST_TIMEOUT_S = 60
-
-
 def wire_header(v):
     """A header value as a WSGI environ string; text outside printable Latin-1 travels RFC 2047 encoded."""
     if all(c == '\t' or ' ' <= c <= '~' or '\xa0' <= c <= '\xff' for c in v) and '=?' not in v:
@@ -879,32 +936,21 @@ def run_request(case):
         out['headers'] = headers
         return lambda data: None
     # whatever the code under test does (raise, hang, hand back odd types) is an observation
-    import signal
-    import threading
-    timed = threading.current_thread() is threading.main_thread()
-    if timed:
-        old = signal.signal(signal.SIGALRM, _on_alarm)
-        signal.setitimer(signal.ITIMER_REAL, REQUEST_TIMEOUT_S)
-    try:
+    def call():
+        res = env.app(environ, start_response)
         try:
-            res = env.app(environ, start_response)
-            try:
-                body = b''.join(res)             # what the WSGI iterable actually delivers
-            finally:
-                if hasattr(res, 'close'):
-                    res.close()
-            hd = {}
-            for k, v in out['headers']:
-                hd.setdefault(str(k).lower(), str(v))
-            return {'status': int(str(out['status']).split()[0]), 'headers': hd, 'body': body}
-        except _Hang:
-            return {'status': 0, 'headers': {}, 'body': b'', 'exc': 'hang(>%ds)' % REQUEST_TIMEOUT_S}
-        except Exception as e:
-            return {'status': 0, 'headers': {}, 'body': b'', 'exc': type(e).__name__}
-    finally:
-        if timed:
-            signal.setitimer(signal.ITIMER_REAL, 0)
-            signal.signal(signal.SIGALRM, old)
+            body = b''.join(res)             # what the WSGI iterable actually delivers
+        finally:
+            if hasattr(res, 'close'):
+                res.close()
+        hd = {}
+        for k, v in out['headers']:
+            hd.setdefault(str(k).lower(), str(v))
+        return {'status': int(str(out['status']).split()[0]), 'headers': hd, 'body': body}
+    r = guarded(call)
+    if isinstance(r, tuple):
+        return {'status': 0, 'headers': {}, 'body': b'', 'exc': r[1]}
+    return r
 
 
 _CR = re.compile(r'bytes (\d+)-(\d+)/(\d+)\Z')
@@ -1068,6 +1114,8 @@ def oracle_request(case, obs):
     bad = []
     case = norm_case(case)
     if obs.get('exc'):
+        if obs['exc'].startswith('not-run'):
+            return []
         return [('the request ended in %s instead of a response' % obs['exc'], 'req:exception:' + obs['exc'])]
     kind, method, st, hd, body = case['kind'], case['method'], obs['status'], obs['headers'], obs['body']
     content = content_bytes(case)
